@@ -113,6 +113,98 @@ Theorem C14_batch_independent : forall k ws,
 Proof. exact pub_batch. Qed.
 Print Assumptions C14_batch_independent.
 
+(* Scaling by ANY positive rational: w2 = (c1/c2) w1, stated without division as
+   c1*w1 = c2*w2 sample by sample.  Both calls fail together; otherwise every index
+   (and the sign flag) agrees and c1 * value(w1) = c2 * value(w2).  Finite floats are
+   dyadic rationals, so in exact arithmetic this covers every pair of proportional
+   float waveforms. *)
+Theorem C14_scale_equivariance_rational : forall c1 c2 k w1 w2, 0 < c1 -> 0 < c2 ->
+  scale_wav c1 w1 = scale_wav c2 w2 ->
+  match features1 k w1, features1 k w2 with
+  | Some f1, Some f2 => same_indices f1 f2 /\ values_prop c1 c2 f1 f2
+  | None, None => True
+  | _, _ => False
+  end.
+Proof. exact pub_scale_rational. Qed.
+Print Assumptions C14_scale_equivariance_rational.
+
+(* _validate_arr_in: NaN is read as 0; a 2-D array is a batch of one. *)
+Theorem C14_nan_is_zero : forall k w,
+  features1 k (map (map (fun o => Some (denan o))) w) = features1 k w.
+Proof. exact pub_nan_zero. Qed.
+Print Assumptions C14_nan_is_zero.
+
+Theorem C14_input_rank : forall k i, compute_spike_features k i =
+  match i with
+  | In2 w => option_map (fun f => [f]) (features1 k w)
+  | In3 ws => sequence (map (features1 k) ws)
+  end.
+Proof. exact pub_input. Qed.
+Print Assumptions C14_input_rank.
+
+(* NaN padding: a channel that is NaN throughout is never the peak channel of a
+   successful call, wherever it sits, and the reported peak sample is never a NaN. *)
+Theorem C14_nan_channel_never_peak : forall k w T C f c, rect w T C -> features1 k w = Some f ->
+  (forall t, (t < T)%nat -> nth c (nth t w []) None = None) -> f_trace f <> c.
+Proof. exact pub_nan_channel. Qed.
+Print Assumptions C14_nan_channel_never_peak.
+
+Theorem C14_peak_sample_not_nan : forall k w T C f, rect w T C -> features1 k w = Some f ->
+  nth (f_trace f) (nth (f_peak f) w []) None <> None.
+Proof. exact pub_peak_not_nan. Qed.
+Print Assumptions C14_peak_sample_not_nan.
+
+(* Inserting an all-NaN channel at ANY position j (0..C) changes nothing but the
+   peak channel index, which moves past the inserted channel; failing calls keep
+   failing.  No uniqueness hypothesis: a padded channel can never win a tie. *)
+Theorem C14_nan_channel_insertion : forall k j w T C, rect w T C -> (j <= C)%nat ->
+  features1 k (insert_nan_channel j w) =
+  option_map (fun f => with_trace (shift_idx j (f_trace f)) f) (features1 k w).
+Proof. exact pub_nan_insert. Qed.
+Print Assumptions C14_nan_channel_insertion.
+
+(* find_peak (public) returns the extremum the feature row starts from;
+   weights_spk_ch returns per trace the signed sample at the first largest |sample|,
+   the peak channel is the first trace of largest |weight| and carries the extremum. *)
+Theorem C14_find_peak_extremum : forall w T C, rect w T C -> (1 <= T)%nat -> (1 <= C)%nat ->
+  exists tr pk, find_peak1 w = Some (tr, pk, smp w pk tr) /\ is_extremum w T C tr pk.
+Proof. exact pub_find_peak. Qed.
+Print Assumptions C14_find_peak_extremum.
+
+Theorem C14_weights_spec : forall w T C, rect w T C -> (1 <= T)%nat ->
+  exists ws, weights1 w = Some ws /\ length ws = C /\
+    forall c, (c < C)%nat -> exists i, (i < T)%nat /\ nth c ws 0 = smp w i c /\
+      (forall t, (t < T)%nat -> Z.abs (smp w t c) <= Z.abs (smp w i c)) /\
+      (forall t, (t < i)%nat -> Z.abs (smp w t c) < Z.abs (smp w i c)).
+Proof. exact pub_weights. Qed.
+Print Assumptions C14_weights_spec.
+
+Theorem C14_weights_peak_channel : forall w T C ws tr pk0, rect w T C -> weights1 w = Some ws ->
+  is_extremum w T C tr pk0 ->
+  nth tr ws 0 = smp w pk0 tr /\
+  (forall c, (c < C)%nat -> Z.abs (nth c ws 0) <= Z.abs (nth tr ws 0)) /\
+  (forall c, (c < tr)%nat -> Z.abs (nth c ws 0) < Z.abs (nth tr ws 0)).
+Proof. exact pub_weights_peak. Qed.
+Print Assumptions C14_weights_peak_channel.
+
+(* Derived columns (peak_to_trough_ratio, slopes, peak-to-trough duration) as
+   numerator / denominator pairs: quotients of differences of the points specified
+   above; the depolarisation denominator is positive, the other two are >= 0 and a
+   zero denominator only meets a zero numerator (nan, never +-inf); the ratio's
+   numerator is positive (inf exactly when the trough sample is 0). *)
+Theorem C14_derived_columns : forall k w T C f, rect w T C -> features1 k w = Some f ->
+  let x := trace_of w (f_trace f) in
+  d_ratio f = (Z.abs (nth (f_peak f) x 0), Z.abs (nth (f_trough f) x 0)) /\ 0 < fst (d_ratio f) /\
+  d_depol f = (nth (f_peak f) x 0 - nth (f_tip f) x 0, zn (f_peak f) - zn (f_tip f)) /\
+  0 < snd (d_depol f) /\
+  d_repol f = (nth (f_trough f) x 0 - nth (f_peak f) x 0, zn (f_trough f) - zn (f_peak f)) /\
+  0 <= snd (d_repol f) /\ (snd (d_repol f) = 0 -> fst (d_repol f) = 0) /\
+  d_recov f = (nth (f_rec f) x 0 - nth (f_trough f) x 0, zn (f_rec f) - zn (f_trough f)) /\
+  0 <= snd (d_recov f) /\ (snd (d_recov f) = 0 -> fst (d_recov f) = 0) /\
+  0 <= d_pt_dur f.
+Proof. exact pub_derived. Qed.
+Print Assumptions C14_derived_columns.
+
 (* ---- the hypotheses are satisfiable on non-trivial inputs ---- *)
 (* a negative spike on channel 1 of 2, with a NaN-padded sample *)
 Definition ex_w : list (list (option Z)) :=
@@ -143,3 +235,12 @@ Definition wit : list (list (option Z)) :=
   map (fun v => [Some v]) [0; 1; -2; 3; -1; 4; 6; 3; 1; 0; 5; 10].
 Example ex_former_witness : features1 5 wit = Some (mkF 0 11 10 (-1) 11 10 2 (-2) 0 9 0 0 11 10).
 Proof. vm_compute. reflexivity. Qed.
+
+(* rational scaling: w1 = 2 * u, w2 = 3 * u  (w2 = 1.5 * w1); a padded channel inserted in front *)
+Example ex_rational : scale_wav 3 (scale_wav 2 ex_w2) = scale_wav 2 (scale_wav 3 ex_w2) /\
+  features1 5 (scale_wav 2 ex_w2) = Some (mkF 0 5 (-16) 1 6 12 3 20 6 4 12 (-6) 9 0) /\
+  features1 5 (scale_wav 3 ex_w2) = Some (mkF 0 5 (-24) 1 6 18 3 30 6 4 18 (-9) 9 0).
+Proof. vm_compute. auto. Qed.
+Example ex_padding : features1 5 (insert_nan_channel 0 ex_w) = Some (mkF 2 2 (-30) 1 4 12 1 2 3 1 (-8) 2 9 0)
+  /\ weights1 ex_w = Some [3; -30].
+Proof. vm_compute. auto. Qed.
